@@ -3,9 +3,17 @@ C18 - property theorems: interp_axis is per-fibre piecewise-linear interpolation
 nodes, left / right fill outside the label range; the axis becomes exactly the requested
 coordinates, other axes and metadata unchanged.  Values are exact rationals here (the floating-point
 rounding inside np.interp is outside the model: PARTIAL).
+
+Layout: the 1-D kernel theorems first; then the END-TO-END theorems about `Lib.interpAxis` (N-d, labels stored
+in any order): `interpAxis_spec` / `InterpolatesAlong` with its corollaries (`node`, `left_fill`, `right_fill`,
+`between`, `between_bounds`), `interpAxis_order_independent`, the failure cases, `interpAxis_successive`; then the
+Dataset variant `DSV.interpAxisDs_spec` (mirror in `Lib/DatasetInterp.lean`).  `interp_like` has no mirror.
 -/
 import DimModel.Lib.Interp
 import DimModel.Proofs.C18
+import DimModel.Proofs.C18Axis
+import DimModel.Proofs.C18Ds
+import DimModel.Props.C14
 import Mathlib.Tactic.NormNum
 namespace DimModel
 open Lib
@@ -165,5 +173,638 @@ example : interpAt linRat [0, 2, 4] [10, 20, 40] 0 (-1) (-2) 3 = 30 ∧ StrictIn
   refine ⟨?_, hinc⟩
   rw [interpAt_between [0, 2, 4] [10, 20, 40] 0 (-1) (-2) 3 1 (by decide) rfl hinc (by decide) (by decide)]
   norm_num
+
+/-! ## End to end: `Lib.interpAxis` on N-d arrays whose labels are stored in any order
+
+The stored nodes `xs` (the numeric labels of the axis, as stored: increasing, decreasing or shuffled) are
+related to the 1-D kernel through a *sorting list* `σ`: the positions `0 .. n-1` listed by increasing node
+value.  For distinct nodes such a list exists and is unique (`sortsNodes_exists`, `SortsNodes.unique`), so
+the value equation below determines the result completely and does not mention how the implementation
+sorts. -/
+open C18P C17P
+
+/-- `σ` lists the positions `0 .. n-1` of the stored nodes `xs` by strictly increasing node value
+(every `p ∈ σ` is a valid position of `xs`, so the `getD` default is never used) -/
+def SortsNodes (xs : List Rat) (σ : List Nat) : Prop :=
+  σ.Perm (List.range xs.length) ∧ StrictInc (σ.map (fun p => xs.getD p 0))
+
+/-- distinct nodes can be sorted ... -/
+theorem sortsNodes_exists (xs : List Rat) (hnd : xs.Nodup) : ∃ σ, SortsNodes xs σ :=
+  ⟨sortPos xs, sortPos_perm xs, sortPos_lt_pairwise xs hnd⟩
+
+/-- ... in exactly one way ... -/
+theorem SortsNodes.unique {xs : List Rat} {σ τ : List Nat} (hσ : SortsNodes xs σ) (hτ : SortsNodes xs τ) : σ = τ :=
+  sorting_unique xs σ τ (hσ.1.trans hτ.1.symm) hσ.2 hτ.2
+
+/-- ... and only distinct nodes can -/
+theorem SortsNodes.nodup {xs : List Rat} {σ : List Nat} (hσ : SortsNodes xs σ) : xs.Nodup := by
+  have h1 : (σ.map (fun p => xs.getD p 0)).Nodup := hσ.2.imp (fun h => ne_of_lt h)
+  have h2 := hσ.1.map (fun p => xs.getD p 0)
+  rw [map_range_getD] at h2
+  exact h2.nodup_iff.mp h1
+
+/-- a valid position of a sorting list is a valid position of the nodes -/
+theorem SortsNodes.lt {xs : List Rat} {σ : List Nat} (hσ : SortsNodes xs σ) {p : Nat} (hp : p ∈ σ) : p < xs.length := by
+  simpa using hσ.1.mem_iff.mp hp
+
+/-- Spec: `r` is `a` interpolated along dimension `pos` (whose axis `ax` has the stored numeric labels `xs`)
+at the new coordinates `nx`: the axis at `pos` is exactly the new coordinates under the old name, the other
+axes, the array metadata are unchanged, the result is a well-formed float array, and every cell is the 1-D
+kernel `interpAt` applied to the sorted nodes and to the fibre through that cell read in the same (sorted)
+order - whatever the stored order. -/
+structure InterpolatesAlong {α : Type} [Inhabited α] (lin : α → α → Rat → α) (a r : DimArray α) (pos : Nat)
+    (ax : Axis) (xs nx : List Rat) (nk : Kind) (left right : α) : Prop where
+  /-- the result is a well-formed DimArray -/
+  wf : r.WF
+  ndim : r.axes.length = a.axes.length
+  /-- the interpolated axis carries exactly the requested coordinates, under the old name -/
+  axis : r.axes[pos]? = some { name := ax.name, labels := nx.map Label.num, kind := nk }
+  /-- every other axis is the very same axis -/
+  others : ∀ i, i ≠ pos → r.axes[i]? = a.axes[i]?
+  shape : r.vals.shape = a.vals.shape.set pos nx.length
+  attrs : r.attrs = a.attrs
+  vkind : r.vkind = Kind.f
+  /-- the value equation: with `σ` the sorting list of the stored nodes, the cell at index `j` (coordinate `i`
+  along `pos`, new coordinate `x = nx[i]`) is the 1-D interpolation at `x` of the fibre
+  `p ↦ a[j with j[pos] := p]` against the nodes, both read through `σ` -/
+  value : ∀ σ, SortsNodes xs σ → ∀ (j : List Nat) (i : Nat) (x : Rat), j[pos]? = some i → nx[i]? = some x →
+    r.vals.get j =
+      interpAt lin (σ.map (fun p => xs.getD p 0)) (σ.map (fun p => a.vals.get (j.set pos p))) default left right x
+
+/-- **`interp_axis`, end to end.** On a well-formed array whose axis `k` is a plain axis with distinct numeric
+labels `xs` stored in ANY order (at least one), and for ANY list of new numeric coordinates `nx` (sorted or
+not, inside or outside the label range, possibly empty): the call succeeds and the result satisfies
+`InterpolatesAlong`. -/
+theorem interpAxis_spec {α : Type} [Inhabited α] (lin : α → α → Rat → α) (a : DimArray α) (k : DimKey) (pos : Nat)
+    (ax : Axis) (xs nx : List Rat) (nk : Kind) (left right : α)
+    (hwf : a.WF) (hpos : axisPos a.axes k = .ok pos) (hax : a.axes[pos]? = some ax)
+    (hxs : ax.labels = xs.map Label.num) (hne : xs ≠ []) (hnd : xs.Nodup) :
+    ∃ r, interpAxis lin a k (nx.map Label.num) nk left right = .ok r ∧
+      InterpolatesAlong lin a r pos ax xs nx nk left right := by
+  have hlt : pos < a.axes.length := axisPos_lt _ _ _ hpos
+  rw [interpAxis_eq_core, hpos]
+  show ∃ r, interpCore lin a pos (nx.map Label.num) nk left right = .ok r ∧ _
+  rw [interpCore_closed lin a pos ax xs nx nk left right hax hxs hne]
+  refine ⟨_, rfl, ?_⟩
+  refine
+    { wf := interpResult_wf lin a pos ax nk _ xs nx left right hwf hax
+      ndim := by simp [interpResult]
+      axis := by simp [interpResult, hlt]
+      others := fun i hi => by
+        show (a.axes.set pos _)[i]? = _
+        rw [List.getElem?_set_ne (Ne.symm hi)]
+      shape := rfl
+      attrs := rfl
+      vkind := rfl
+      value := ?_ }
+  intro σ hσ j i x hj hx
+  have hσe : σ = sortPos xs := hσ.unique ⟨sortPos_perm xs, sortPos_lt_pairwise xs hnd⟩
+  subst hσe
+  show interpAt lin _ _ default left right (nx.getD (j.getD pos 0) 0) = _
+  simp only [List.getD_eq_getElem?_getD, hj, hx, Option.getD_some]
+
+/-- the value equation of `InterpolatesAlong` covers every in-range index of the result, and (for a plain
+axis) every cell of `a` it reads is an in-range cell -/
+theorem InterpolatesAlong.covers {α : Type} [Inhabited α] {lin : α → α → Rat → α} {a r : DimArray α} {pos : Nat}
+    {ax : Axis} {xs nx : List Rat} {nk : Kind} {left right : α}
+    (h : InterpolatesAlong lin a r pos ax xs nx nk left right) (hwf : a.WF) (hax : a.axes[pos]? = some ax)
+    (hplain : ax.members = []) (hxs : ax.labels = xs.map Label.num)
+    (j : List Nat) (hj : InRange r.vals.shape j) :
+    ∃ i x, j[pos]? = some i ∧ nx[i]? = some x ∧ ∀ p, p < xs.length → InRange a.vals.shape (j.set pos p) := by
+  have hlt : pos < a.vals.shape.length := by
+    rw [hwf.1, List.length_map]
+    rcases Nat.lt_or_ge pos a.axes.length with hl | hl
+    · exact hl
+    · rw [List.getElem?_eq_none hl] at hax; cases hax
+  have hs : r.vals.shape[pos]? = some nx.length := by
+    rw [h.shape, List.getElem?_set_self hlt]
+  obtain ⟨i, hi, hil⟩ := inRange_getElem? _ _ _ _ hj hs
+  refine ⟨i, nx[i], hi, List.getElem?_eq_getElem hil, ?_⟩
+  intro p hp
+  have hsa : a.vals.shape[pos]? = some xs.length := by
+    rw [hwf.1, List.getElem?_map, hax]
+    simp [Axis.size, hplain, hxs]
+  rw [h.shape] at hj
+  exact inRange_set_set _ _ _ _ _ _ hj hsa hp
+
+/-! ### corollaries: the kernel theorems transported to the N-d, any-order function -/
+
+/-- the nodes read through a sorting list are a permutation of the stored nodes -/
+theorem SortsNodes.nodes_perm {xs : List Rat} {σ : List Nat} (hσ : SortsNodes xs σ) :
+    (σ.map (fun p => xs.getD p 0)).Perm xs := by
+  have := hσ.1.map (fun p => xs.getD p 0)
+  rwa [map_range_getD] at this
+
+/-- where the stored position `p` sits in the sorted order: the node there is `xs[p]`, the fibre value there
+is the cell of `a` at position `p` -/
+private theorem SortsNodes.locate {α : Type} {xs : List Rat} {σ : List Nat} (hσ : SortsNodes xs σ) (f : Nat → α)
+    {p : Nat} {x : Rat} (hp : xs[p]? = some x) :
+    ∃ u : Nat, u < σ.length ∧ (σ.map (fun p => xs.getD p 0))[u]? = some x ∧ (σ.map f)[u]? = some (f p) := by
+  have hpl : p < xs.length := (List.getElem?_eq_some_iff.mp hp).1
+  obtain ⟨u, hu⟩ := perm_range_index hσ.1 hpl
+  have hul := (List.getElem?_eq_some_iff.mp hu).1
+  refine ⟨u, hul, ?_, ?_⟩
+  · rw [List.getElem?_map, hu]
+    simp [List.getD_eq_getElem?_getD, hp]
+  · rw [List.getElem?_map, hu]; rfl
+
+/-- **exact at the nodes, N-d, any stored order**: where the new coordinate equals the label stored at
+position `p`, the result is the original cell at position `p` (for any value type and any `lin`) -/
+theorem InterpolatesAlong.node {α : Type} [Inhabited α] {lin : α → α → Rat → α} {a r : DimArray α} {pos : Nat}
+    {ax : Axis} {xs nx : List Rat} {nk : Kind} {left right : α}
+    (h : InterpolatesAlong lin a r pos ax xs nx nk left right) (hnd : xs.Nodup)
+    (j : List Nat) (i p : Nat) (x : Rat) (hj : j[pos]? = some i) (hx : nx[i]? = some x) (hp : xs[p]? = some x) :
+    r.vals.get j = a.vals.get (j.set pos p) := by
+  obtain ⟨σ, hσ⟩ := sortsNodes_exists xs hnd
+  rw [h.value σ hσ j i x hj hx]
+  obtain ⟨u, hul, hn, hf⟩ := hσ.locate (fun p => a.vals.get (j.set pos p)) hp
+  obtain ⟨hl1, e1⟩ := List.getElem?_eq_some_iff.mp hn
+  obtain ⟨hl2, e2⟩ := List.getElem?_eq_some_iff.mp hf
+  have := interpAt_node_gen lin (σ.map (fun p => xs.getD p 0)) (σ.map (fun p => a.vals.get (j.set pos p)))
+    default left right u hl1 (by simp) hσ.2
+  rw [e1] at this
+  rw [this, e2]
+
+/-- **left fill, N-d**: a new coordinate below every label gives `left` -/
+theorem InterpolatesAlong.left_fill {α : Type} [Inhabited α] {lin : α → α → Rat → α} {a r : DimArray α} {pos : Nat}
+    {ax : Axis} {xs nx : List Rat} {nk : Kind} {left right : α}
+    (h : InterpolatesAlong lin a r pos ax xs nx nk left right) (hne : xs ≠ []) (hnd : xs.Nodup)
+    (j : List Nat) (i : Nat) (x : Rat) (hj : j[pos]? = some i) (hx : nx[i]? = some x) (hlo : ∀ y ∈ xs, x < y) :
+    r.vals.get j = left := by
+  obtain ⟨σ, hσ⟩ := sortsNodes_exists xs hnd
+  rw [h.value σ hσ j i x hj hx]
+  apply interpAt_left_gen
+  · intro he
+    have := hσ.nodes_perm
+    rw [he] at this
+    exact hne this.symm.eq_nil
+  · intro y hy
+    exact hlo y (hσ.nodes_perm.mem_iff.mp hy)
+
+/-- **right fill, N-d**: a new coordinate above every label gives `right` -/
+theorem InterpolatesAlong.right_fill {α : Type} [Inhabited α] {lin : α → α → Rat → α} {a r : DimArray α} {pos : Nat}
+    {ax : Axis} {xs nx : List Rat} {nk : Kind} {left right : α}
+    (h : InterpolatesAlong lin a r pos ax xs nx nk left right) (hne : xs ≠ []) (hnd : xs.Nodup)
+    (j : List Nat) (i : Nat) (x : Rat) (hj : j[pos]? = some i) (hx : nx[i]? = some x) (hhi : ∀ y ∈ xs, y < x) :
+    r.vals.get j = right := by
+  obtain ⟨σ, hσ⟩ := sortsNodes_exists xs hnd
+  rw [h.value σ hσ j i x hj hx]
+  apply interpAt_right_gen
+  · intro he
+    have := hσ.nodes_perm
+    rw [he] at this
+    exact hne this.symm.eq_nil
+  · intro y hy
+    exact hhi y (hσ.nodes_perm.mem_iff.mp hy)
+
+/-- `interpAt_between` with the nodes and values given by `getElem?` -/
+theorem interpAt_between' (xs ys : List Rat) (d left right x : Rat) (u : Nat) (x0 x1 y0 y1 : Rat)
+    (hlen : ys.length = xs.length) (hinc : StrictInc xs)
+    (hx0 : xs[u]? = some x0) (hx1 : xs[u + 1]? = some x1) (hy0 : ys[u]? = some y0) (hy1 : ys[u + 1]? = some y1)
+    (h0 : x0 < x) (h1 : x < x1) :
+    interpAt linRat xs ys d left right x = y0 + (x - x0) / (x1 - x0) * (y1 - y0) := by
+  obtain ⟨l0, e0⟩ := List.getElem?_eq_some_iff.mp hx0
+  obtain ⟨l1, e1⟩ := List.getElem?_eq_some_iff.mp hx1
+  obtain ⟨m0, f0⟩ := List.getElem?_eq_some_iff.mp hy0
+  obtain ⟨m1, f1⟩ := List.getElem?_eq_some_iff.mp hy1
+  subst e0 e1 f0 f1
+  exact interpAt_between xs ys d left right x u l1 hlen hinc h0 h1
+
+/-- **the chord between neighbouring labels, N-d, any stored order**: if the labels stored at positions `p`
+and `q` are neighbours in the sorted order (no label strictly between them) and the new coordinate lies
+strictly between them, the result is the value on the chord through the two original cells -/
+theorem InterpolatesAlong.between {a r : DimArray Rat} {pos : Nat}
+    {ax : Axis} {xs nx : List Rat} {nk : Kind} {left right : Rat}
+    (h : InterpolatesAlong linRat a r pos ax xs nx nk left right) (hnd : xs.Nodup)
+    (j : List Nat) (i p q : Nat) (x x0 x1 : Rat) (hj : j[pos]? = some i) (hx : nx[i]? = some x)
+    (hp : xs[p]? = some x0) (hq : xs[q]? = some x1) (h0 : x0 < x) (h1 : x < x1)
+    (hnb : ∀ y ∈ xs, y ≤ x0 ∨ x1 ≤ y) :
+    r.vals.get j = a.vals.get (j.set pos p) +
+      (x - x0) / (x1 - x0) * (a.vals.get (j.set pos q) - a.vals.get (j.set pos p)) := by
+  obtain ⟨σ, hσ⟩ := sortsNodes_exists xs hnd
+  rw [h.value σ hσ j i x hj hx]
+  obtain ⟨u, hul, hnu, hfu⟩ := hσ.locate (fun p => a.vals.get (j.set pos p)) hp
+  obtain ⟨v, hvl, hnv, hfv⟩ := hσ.locate (fun p => a.vals.get (j.set pos p)) hq
+  have hinc := hσ.2
+  obtain ⟨lu, eu⟩ := List.getElem?_eq_some_iff.mp hnu
+  obtain ⟨lv, ev⟩ := List.getElem?_eq_some_iff.mp hnv
+  -- `v` is the successor of `u` in the sorted order
+  have huv : u < v := by
+    rcases Nat.lt_or_ge u v with hlt | hge
+    · exact hlt
+    · exfalso
+      have := pairwiseLt_le hinc lv lu hge
+      rw [eu, ev] at this
+      linarith
+  have hv : v = u + 1 := by
+    rcases Nat.lt_or_ge (u + 1) v with hlt | hge
+    · exfalso
+      have hl : u + 1 < (σ.map (fun p => xs.getD p 0)).length := by omega
+      have ha := pairwiseLt_lt hinc lu hl (by omega)
+      have hb := pairwiseLt_lt hinc hl lv hlt
+      rw [eu] at ha
+      rw [ev] at hb
+      have hm : (σ.map (fun p => xs.getD p 0))[u + 1] ∈ xs := hσ.nodes_perm.mem_iff.mp (List.getElem_mem hl)
+      rcases hnb _ hm with hc | hc <;> linarith
+    · omega
+  subst hv
+  exact interpAt_between' _ _ default left right x u x0 x1 _ _ (by simp) hinc hnu hnv hfu hfv h0 h1
+
+/-! ### bounds: between two neighbouring nodes the interpolant stays between the two node values -/
+
+/-- a point of a chord lies between the end values -/
+theorem chord_bounds (x x0 x1 y0 y1 : Rat) (h0 : x0 < x) (h1 : x < x1) :
+    min y0 y1 ≤ y0 + (x - x0) / (x1 - x0) * (y1 - y0) ∧ y0 + (x - x0) / (x1 - x0) * (y1 - y0) ≤ max y0 y1 := by
+  have hd : 0 < x1 - x0 := by linarith
+  have ht0 : 0 < (x - x0) / (x1 - x0) := div_pos (by linarith) hd
+  have ht1 : (x - x0) / (x1 - x0) < 1 := by
+    rw [div_lt_iff₀ hd]; linarith
+  generalize (x - x0) / (x1 - x0) = t at ht0 ht1
+  rcases le_total y0 y1 with hy | hy
+  · rw [min_eq_left hy, max_eq_right hy]
+    constructor
+    · nlinarith
+    · nlinarith
+  · rw [min_eq_right hy, max_eq_left hy]
+    constructor
+    · nlinarith
+    · nlinarith
+
+/-- **1-D bounds**: for `xs[j] < x < xs[j+1]` the interpolated value lies between `ys[j]` and `ys[j+1]`
+(no overshoot) -/
+theorem interpAt_between_bounds (xs ys : List Rat) (d left right x : Rat) (j : Nat) (hj : j + 1 < xs.length)
+    (hlen : ys.length = xs.length) (hinc : StrictInc xs)
+    (h0 : xs[j]'(by omega) < x) (h1 : x < xs[j + 1]) :
+    min (ys[j]'(by omega)) (ys[j + 1]'(by omega)) ≤ interpAt linRat xs ys d left right x ∧
+      interpAt linRat xs ys d left right x ≤ max (ys[j]'(by omega)) (ys[j + 1]'(by omega)) := by
+  rw [interpAt_between xs ys d left right x j hj hlen hinc h0 h1]
+  exact chord_bounds x _ _ _ _ h0 h1
+
+/-- **1-D bounds, closed interval**: for `xs[j] ≤ x ≤ xs[j+1]` as well -/
+theorem interpAt_segment_bounds (xs ys : List Rat) (d left right x : Rat) (j : Nat) (hj : j + 1 < xs.length)
+    (hlen : ys.length = xs.length) (hinc : StrictInc xs)
+    (h0 : xs[j]'(by omega) ≤ x) (h1 : x ≤ xs[j + 1]) :
+    min (ys[j]'(by omega)) (ys[j + 1]'(by omega)) ≤ interpAt linRat xs ys d left right x ∧
+      interpAt linRat xs ys d left right x ≤ max (ys[j]'(by omega)) (ys[j + 1]'(by omega)) := by
+  rcases lt_or_eq_of_le h0 with h0' | h0'
+  · rcases lt_or_eq_of_le h1 with h1' | h1'
+    · exact interpAt_between_bounds xs ys d left right x j hj hlen hinc h0' h1'
+    · subst h1'
+      rw [interpAt_node xs ys d left right (j + 1) hj hlen hinc]
+      exact ⟨min_le_right _ _, le_max_right _ _⟩
+  · subst h0'
+    rw [interpAt_node xs ys d left right j (by omega) hlen hinc]
+    exact ⟨min_le_left _ _, le_max_left _ _⟩
+
+/-- **N-d bounds, any stored order**: between two neighbouring labels the result lies between the two
+original cells -/
+theorem InterpolatesAlong.between_bounds {a r : DimArray Rat} {pos : Nat}
+    {ax : Axis} {xs nx : List Rat} {nk : Kind} {left right : Rat}
+    (h : InterpolatesAlong linRat a r pos ax xs nx nk left right) (hnd : xs.Nodup)
+    (j : List Nat) (i p q : Nat) (x x0 x1 : Rat) (hj : j[pos]? = some i) (hx : nx[i]? = some x)
+    (hp : xs[p]? = some x0) (hq : xs[q]? = some x1) (h0 : x0 < x) (h1 : x < x1)
+    (hnb : ∀ y ∈ xs, y ≤ x0 ∨ x1 ≤ y) :
+    min (a.vals.get (j.set pos p)) (a.vals.get (j.set pos q)) ≤ r.vals.get j ∧
+      r.vals.get j ≤ max (a.vals.get (j.set pos p)) (a.vals.get (j.set pos q)) := by
+  rw [h.between hnd j i p q x x0 x1 hj hx hp hq h0 h1 hnb]
+  exact chord_bounds x x0 x1 _ _ h0 h1
+
+/-! ### the stored order does not matter -/
+
+/-- **order independence.** Permuting the stored order of the labels along the axis together with the data
+slices (a positional take by any permutation `ps` of the positions) does not change the result of
+`interp_axis` at all: same outcome, same axes, same shape, same metadata, same value function. -/
+theorem interpAxis_order_independent {α : Type} [Inhabited α] (lin : α → α → Rat → α) (a : DimArray α) (k : DimKey)
+    (pos : Nat) (ax : Axis) (xs nx : List Rat) (nk : Kind) (left right : α) (ps : List Nat)
+    (hpos : axisPos a.axes k = .ok pos) (hax : a.axes[pos]? = some ax)
+    (hxs : ax.labels = xs.map Label.num) (hne : xs ≠ []) (hnd : xs.Nodup)
+    (hps : ps.Perm (List.range xs.length)) :
+    interpAxis lin (takeAxisPos a pos ps) k (nx.map Label.num) nk left right =
+      interpAxis lin a k (nx.map Label.num) nk left right := by
+  have hlen : ps.length = xs.length := by simpa using hps.length_eq
+  have hpos' : axisPos (takeAxisPos a pos ps).axes k = .ok pos := by
+    rw [axisPos_congr _ _ k (takeAxisPos_names a pos ps)]; exact hpos
+  have hax' : (takeAxisPos a pos ps).axes[pos]? = some (axisTake ax ps) := by
+    rw [takeAxisPos_axes_getElem?, hax]; simp
+  have hlab : (axisTake ax ps).labels = (ps.map (fun p => xs.getD p 0)).map Label.num := by
+    show ps.map (fun p => ax.labels.getD p Label.none) = _
+    rw [hxs]
+    exact map_getD_num xs ps (fun p hp => by simpa using hps.mem_iff.mp hp)
+  have hne' : ps.map (fun p => xs.getD p 0) ≠ [] := by
+    intro he
+    have : xs.length = 0 := by rw [← hlen, ← List.length_map (f := fun p => xs.getD p 0), he]; rfl
+    exact hne (List.length_eq_zero_iff.mp this)
+  rw [interpAxis_eq_core, interpAxis_eq_core, hpos, hpos']
+  show interpCore lin (takeAxisPos a pos ps) pos _ nk left right = interpCore lin a pos _ nk left right
+  rw [interpCore_closed lin a pos ax xs nx nk left right hax hxs hne,
+    interpCore_closed lin (takeAxisPos a pos ps) pos (axisTake ax ps) _ nx nk left right hax' hlab hne']
+  congr 1
+  exact interpResult_perm lin a pos ax.name _ nk xs nx left right ps hnd hps
+
+/-- distinctness of the labels is necessary: with a repeated label the result depends on which of the two
+slices is stored first (as `numpy.interp`, whose result is undefined for non-increasing sample points) -/
+theorem interpAxis_order_dependent_with_duplicates :
+    let a : DimArray Rat := { axes := [{ name := "x", labels := [.num 1, .num 1], kind := .i }],
+                              vals := { shape := [2], get := fun j => if j = [0] then 10 else 20 } }
+    (interpAxis linRat a (.pos 0) [.num 1] .i 0 0).map (fun r => r.vals.get [0]) = .ok 20 ∧
+    (interpAxis linRat (takeAxisPos a 0 [1, 0]) (.pos 0) [.num 1] .i 0 0).map (fun r => r.vals.get [0]) = .ok 10 := by
+  constructor <;> rfl
+
+/-! ### when `interp_axis` fails -/
+
+/-- an empty axis cannot be interpolated (`numpy.interp`: "array of sample points is empty"): ValueError,
+also when no coordinate is requested -/
+theorem interpAxis_empty_axis {α : Type} [Inhabited α] (lin : α → α → Rat → α) (a : DimArray α) (k : DimKey)
+    (pos : Nat) (ax : Axis) (nx : List Rat) (nk : Kind) (left right : α)
+    (hpos : axisPos a.axes k = .ok pos) (hax : a.axes[pos]? = some ax) (hxs : ax.labels = []) :
+    interpAxis lin a k (nx.map Label.num) nk left right = .error .value := by
+  have hgetD : a.axes.getD pos default = ax := by
+    rw [List.getD_eq_getElem?_getD, hax]; rfl
+  rw [interpAxis_eq_core, hpos]
+  show interpCore lin a pos (nx.map Label.num) nk left right = _
+  unfold interpCore
+  simp only [hgetD, hxs]
+  have : isIncreasingEq ([] : List Label) = true := rfl
+  simp only [this, if_true, hgetD, hxs, labelsToRat_num]
+  rfl
+
+/-- labels that are not numbers (on the axis or among the requested coordinates): TypeError (`numpy.interp`
+cannot cast them to float) -/
+theorem interpAxis_nonnumeric {α : Type} [Inhabited α] (lin : α → α → Rat → α) (a : DimArray α) (k : DimKey)
+    (pos : Nat) (ax : Axis) (newL : List Label) (nk : Kind) (left right : α)
+    (hpos : axisPos a.axes k = .ok pos) (hax : a.axes[pos]? = some ax)
+    (hbad : (∃ l ∈ ax.labels, l.toRat? = none) ∨ (∃ l ∈ newL, l.toRat? = none)) :
+    interpAxis lin a k newL nk left right = .error .type := by
+  rw [interpAxis_eq_core, hpos]
+  exact interpCore_nonnumeric lin a pos ax newL nk left right hax hbad
+
+/-- an unknown axis: the error of the axis lookup (ValueError for a name, IndexError for a position) -/
+theorem interpAxis_bad_axis {α : Type} [Inhabited α] (lin : α → α → Rat → α) (a : DimArray α) (k : DimKey)
+    (newL : List Label) (nk : Kind) (left right : α) (e : Err) (hpos : axisPos a.axes k = .error e) :
+    interpAxis lin a k newL nk left right = .error e := by
+  rw [interpAxis_eq_core, hpos]; rfl
+
+/-! ### non-vacuity: a 2 x 3 array whose interpolated axis is stored shuffled -/
+
+/-- rows `a`, `b`; columns at `x = 3, 0, 1` (shuffled) holding `10 * x` (+ 100 in row `b`) -/
+def interpExArr : DimArray Rat :=
+  { axes := [{ name := "y", labels := [.str "a", .str "b"], kind := .U },
+             { name := "x", labels := [.num 3, .num 0, .num 1], kind := .i }]
+    vals := { shape := [2, 3]
+              get := fun j => match j with
+                | [0, c] => ([30, 0, 10] : List Rat).getD c 0
+                | [1, c] => ([130, 100, 110] : List Rat).getD c 0
+                | _ => 0 } }
+
+/-- the hypotheses of `interpAxis_spec`, of the corollaries and of `interpAxis_order_independent` are
+satisfiable together (axis in the middle of the name list given by name, new coordinates unsorted, below,
+on, between and above the labels), and the theorems compute the expected cells -/
+example : ∃ r, interpAxis linRat interpExArr (.name "x") ([-1, 2, 1, 1/2, 5].map Label.num) .f (-7) (-9) = .ok r ∧
+    r.vals.shape = [2, 5] ∧
+    r.vals.get [1, 0] = -7 ∧ r.vals.get [1, 1] = 120 ∧ r.vals.get [1, 2] = 110 ∧ r.vals.get [0, 3] = 5 ∧
+    r.vals.get [0, 4] = -9 ∧
+    interpAxis linRat (takeAxisPos interpExArr 1 [1, 2, 0]) (.name "x") ([-1, 2, 1, 1/2, 5].map Label.num) .f (-7) (-9) = .ok r := by
+  have hwf : interpExArr.WF := by decide
+  have hpos : axisPos interpExArr.axes (.name "x") = .ok 1 := by decide
+  have hax : interpExArr.axes[1]? = some { name := "x", labels := [.num 3, .num 0, .num 1], kind := .i } := rfl
+  have hnd : ([3, 0, 1] : List Rat).Nodup := by decide
+  obtain ⟨r, hr, h⟩ := interpAxis_spec linRat interpExArr (.name "x") 1 _ [3, 0, 1] [-1, 2, 1, 1/2, 5] .f (-7) (-9)
+    hwf hpos hax rfl (by decide) hnd
+  refine ⟨r, hr, h.shape, ?_, ?_, ?_, ?_, ?_, ?_⟩
+  · exact h.left_fill (by decide) hnd [1, 0] 0 (-1) rfl rfl (by decide)
+  · rw [h.between hnd [1, 1] 1 2 0 2 1 3 rfl rfl rfl rfl (by decide) (by decide) (by decide)]
+    show (110 : Rat) + (2 - 1) / (3 - 1) * (130 - 110) = 120
+    norm_num
+  · exact h.node hnd [1, 2] 2 2 1 rfl rfl rfl
+  · rw [h.between hnd [0, 3] 3 1 2 (1/2) 0 1 rfl rfl rfl rfl (by norm_num) (by norm_num) (by decide)]
+    show (0 : Rat) + (1/2 - 0) / (1 - 0) * (10 - 0) = 5
+    norm_num
+  · exact h.right_fill (by decide) hnd [0, 4] 4 5 rfl rfl (by decide)
+  · rw [interpAxis_order_independent linRat interpExArr (.name "x") 1 _ [3, 0, 1] [-1, 2, 1, 1/2, 5] .f (-7) (-9) [1, 2, 0]
+      hpos hax rfl (by decide) hnd (by decide)]
+    exact hr
+
+/-- the bounds theorems on concrete data: 1-D, and on the shuffled 2-D array (cell `[1, 1]`, new coordinate 2
+between the labels 1 and 3 stored at positions 2 and 0: the result lies between the cells 110 and 130); the
+value equation covers the in-range index `[1, 3]` and reads in-range cells only -/
+example : (min 20 40 ≤ interpAt linRat [0, 2, 4] [10, 20, 40] 0 (-1) (-2) 3 ∧
+      interpAt linRat [0, 2, 4] [10, 20, 40] 0 (-1) (-2) 3 ≤ max 20 40) ∧
+    ∀ r, interpAxis linRat interpExArr (.name "x") ([-1, 2, 1, 1/2, 5].map Label.num) .f (-7) (-9) = .ok r →
+      (min 110 130 ≤ r.vals.get [1, 1] ∧ r.vals.get [1, 1] ≤ max 110 130) ∧
+      ∃ i x, ([1, 3] : List Nat)[1]? = some i ∧ ([-1, 2, 1, 1/2, 5] : List Rat)[i]? = some x ∧
+        ∀ p, p < 3 → InRange interpExArr.vals.shape ([1, 3].set 1 p) := by
+  have hinc : StrictInc [0, 2, 4] := by unfold StrictInc; decide
+  refine ⟨interpAt_between_bounds [0, 2, 4] [10, 20, 40] 0 (-1) (-2) 3 1 (by decide) rfl hinc (by decide) (by decide), ?_⟩
+  intro r hr
+  have hwf : interpExArr.WF := by decide
+  have hpos : axisPos interpExArr.axes (.name "x") = .ok 1 := by decide
+  have hax : interpExArr.axes[1]? = some { name := "x", labels := [.num 3, .num 0, .num 1], kind := .i } := rfl
+  have hnd : ([3, 0, 1] : List Rat).Nodup := by decide
+  obtain ⟨r', hr', h⟩ := interpAxis_spec linRat interpExArr (.name "x") 1 _ [3, 0, 1] [-1, 2, 1, 1/2, 5] .f (-7) (-9)
+    hwf hpos hax rfl (by decide) hnd
+  rw [hr] at hr'
+  injection hr' with hr'
+  subst hr'
+  refine ⟨?_, ?_⟩
+  · exact h.between_bounds hnd [1, 1] 1 2 0 2 1 3 rfl rfl rfl rfl (by decide) (by decide) (by decide)
+  · exact h.covers hwf hax rfl rfl [1, 3] (by rw [h.shape]; decide)
+
+/-- the failure theorems on concrete data: an empty axis, string labels, an unknown dimension -/
+example :
+    interpAxis linRat ({ axes := [{ name := "x", labels := [], kind := .f }], vals := { shape := [0], get := fun _ => 0 } } : DimArray Rat)
+      (.pos 0) ([1].map Label.num) .f 0 0 = .error .value ∧
+    interpAxis linRat interpExArr (.name "y") ([1].map Label.num) .f 0 0 = .error .type ∧
+    interpAxis linRat interpExArr (.name "z") ([1].map Label.num) .f 0 0 = .error .value := by
+  refine ⟨?_, ?_, ?_⟩
+  · exact interpAxis_empty_axis linRat _ (.pos 0) 0 _ [1] .f 0 0 (by decide) rfl rfl
+  · exact interpAxis_nonnumeric linRat interpExArr (.name "y") 0 _ _ .f 0 0 (by decide) rfl
+      (Or.inl ⟨.str "a", by decide, rfl⟩)
+  · exact interpAxis_bad_axis linRat interpExArr (.name "z") _ .f 0 0 .value (by decide)
+
+/-! ### successive interpolation along two dimensions (the step `interp_like` iterates; `interp_like` itself has
+no mirror in `Lib`) -/
+
+/-- interpolation does not rename any dimension -/
+theorem InterpolatesAlong.names {α : Type} [Inhabited α] {lin : α → α → Rat → α} {a r : DimArray α} {pos : Nat}
+    {ax : Axis} {xs nx : List Rat} {nk : Kind} {left right : α}
+    (h : InterpolatesAlong lin a r pos ax xs nx nk left right) (hax : a.axes[pos]? = some ax) :
+    r.axes.map (·.name) = a.axes.map (·.name) := by
+  apply List.ext_getElem?
+  intro i
+  rw [List.getElem?_map, List.getElem?_map]
+  by_cases hi : i = pos
+  · subst hi
+    rw [h.axis, hax]
+    rfl
+  · rw [h.others i hi]
+
+/-- **two successive interpolations** along different dimensions (what `interp_like` does for every shared
+dimension): if both axes of the input qualify, the second call succeeds on the result of the first, each step is a
+per-fibre interpolation, both axes end up as requested and every other axis and the metadata are those of the
+input -/
+theorem interpAxis_successive {α : Type} [Inhabited α] (lin : α → α → Rat → α) (a : DimArray α)
+    (k1 k2 : DimKey) (p1 p2 : Nat) (ax1 ax2 : Axis) (xs1 nx1 xs2 nx2 : List Rat) (nk1 nk2 : Kind) (left right : α)
+    (hwf : a.WF) (hne12 : p1 ≠ p2)
+    (hpos1 : axisPos a.axes k1 = .ok p1) (hax1 : a.axes[p1]? = some ax1)
+    (hxs1 : ax1.labels = xs1.map Label.num) (hne1 : xs1 ≠ []) (hnd1 : xs1.Nodup)
+    (hpos2 : axisPos a.axes k2 = .ok p2) (hax2 : a.axes[p2]? = some ax2)
+    (hxs2 : ax2.labels = xs2.map Label.num) (hne2 : xs2 ≠ []) (hnd2 : xs2.Nodup) :
+    ∃ r1 r2, interpAxis lin a k1 (nx1.map Label.num) nk1 left right = .ok r1 ∧
+      interpAxis lin r1 k2 (nx2.map Label.num) nk2 left right = .ok r2 ∧
+      InterpolatesAlong lin a r1 p1 ax1 xs1 nx1 nk1 left right ∧
+      InterpolatesAlong lin r1 r2 p2 ax2 xs2 nx2 nk2 left right ∧
+      r2.axes[p1]? = some { name := ax1.name, labels := nx1.map Label.num, kind := nk1 } ∧
+      r2.axes[p2]? = some { name := ax2.name, labels := nx2.map Label.num, kind := nk2 } ∧
+      (∀ i, i ≠ p1 → i ≠ p2 → r2.axes[i]? = a.axes[i]?) ∧ r2.attrs = a.attrs := by
+  obtain ⟨r1, hr1, h1⟩ := interpAxis_spec lin a k1 p1 ax1 xs1 nx1 nk1 left right hwf hpos1 hax1 hxs1 hne1 hnd1
+  have hpos2' : axisPos r1.axes k2 = .ok p2 := by
+    rw [axisPos_congr _ _ k2 (h1.names hax1)]; exact hpos2
+  have hax2' : r1.axes[p2]? = some ax2 := by rw [h1.others p2 (Ne.symm hne12)]; exact hax2
+  obtain ⟨r2, hr2, h2⟩ := interpAxis_spec lin r1 k2 p2 ax2 xs2 nx2 nk2 left right h1.wf hpos2' hax2' hxs2 hne2 hnd2
+  refine ⟨r1, r2, hr1, hr2, h1, h2, ?_, h2.axis, ?_, ?_⟩
+  · rw [h2.others p1 hne12]; exact h1.axis
+  · intro i hi1 hi2
+    rw [h2.others i hi2, h1.others i hi1]
+  · rw [h2.attrs, h1.attrs]
+
+/-- a 2 x 3 array with two numeric axes, both stored out of order -/
+def interpExArr2 : DimArray Rat :=
+  { axes := [{ name := "y", labels := [.num 1, .num 0], kind := .i },
+             { name := "x", labels := [.num 3, .num 0, .num 1], kind := .i }]
+    vals := { shape := [2, 3]
+              get := fun j => match j with
+                | [0, c] => ([130, 100, 110] : List Rat).getD c 0
+                | [1, c] => ([30, 0, 10] : List Rat).getD c 0
+                | _ => 0 } }
+
+/-- the hypotheses of `interpAxis_successive` are satisfiable (bilinear interpolation of a 2 x 3 table) -/
+example : ∃ r1 r2, interpAxis linRat interpExArr2 (.name "x") ([2, 1/2].map Label.num) .f 0 0 = .ok r1 ∧
+    interpAxis linRat r1 (.pos (-2)) ([1/2].map Label.num) .f 0 0 = .ok r2 ∧ r2.vals.shape = [1, 2] := by
+  obtain ⟨r1, r2, h1, h2, -, hs2, -, -, -, -⟩ := interpAxis_successive linRat interpExArr2 (.name "x") (.pos (-2)) 1 0
+    { name := "x", labels := [.num 3, .num 0, .num 1], kind := .i } { name := "y", labels := [.num 1, .num 0], kind := .i }
+    [3, 0, 1] [2, 1/2] [1, 0] [1/2] .f .f 0 0 (by decide) (by decide) (by decide) rfl rfl (by decide) (by decide)
+    (by decide) rfl rfl (by decide) (by decide)
+  refine ⟨r1, r2, h1, h2, ?_⟩
+  rw [hs2.shape]
+  obtain ⟨r1', h1', hs1⟩ := interpAxis_spec linRat interpExArr2 (.name "x") 1 _ [3, 0, 1] [2, 1/2] .f 0 0
+    (by decide) (by decide) rfl rfl (by decide) (by decide)
+  rw [h1] at h1'
+  injection h1' with h1'
+  subst h1'
+  rw [hs1.shape]
+  rfl
+
+/-! ## The Dataset variant
+
+`Dataset.interp_axis` sorts the whole Dataset by ITS labels, computes the indices / weights once and applies
+them to the raw values of every variable (`DSV.interpAxisDs`, a code path of its own).  It agrees with the
+DimArray method variable by variable. -/
+
+namespace DSV
+
+/-- in a good Dataset every axis of the Dataset is a plain axis (it is the axis of some variable) -/
+theorem GoodDs.plain {α} {ds : Ds α} (hg : GoodDs ds) {e : Axis} (he : e ∈ ds.axes) : e.members = [] := by
+  obtain ⟨kv, hkv, hmem⟩ := hg.1.2.1 e he
+  obtain ⟨a, ha, hn⟩ := List.mem_map.mp hmem
+  have : a = e := mem_name_inj hg.1.2.2 (hg.2.1 kv hkv a ha) he hn
+  rw [← this]
+  exact (hg.2.2.2 kv hkv).2.2 a ha
+
+/-- **`Dataset.interp_axis`, end to end.** On a good Dataset (shared axes, distinct keys, well-formed
+variables) whose axis `name` has numeric labels `xs` stored in any order (at least one), for any new numeric
+coordinates: the call succeeds; keys and Dataset metadata are kept; the Dataset's axis `name` is exactly the new
+coordinates and its other axes are unchanged; every variable that has the dimension comes back EXACTLY as
+`DimArray.interp_axis` of that variable (same axes, values, dtype kind, metadata), the others as they are; the
+result is again a Dataset with shared axes. -/
+theorem interpAxisDs_spec {α : Type} [Inhabited α] (lin : α → α → Rat → α) (ds : Ds α) (name : String) (ax : Axis)
+    (xs nx : List Rat) (nk : Kind) (left right : α) (hg : GoodDs ds)
+    (hfind : ds.axes.find? (fun a => a.name == name) = some ax)
+    (hxs : ax.labels = xs.map Label.num) (hne : xs ≠ []) :
+    ∃ out, interpAxisDs lin ds name (nx.map Label.num) nk left right = .ok out ∧
+      out.keys = ds.keys ∧ out.attrs = ds.attrs ∧ SharedAxes out ∧ OwnAxes out ∧
+      out.axes = ds.axes.map (fun e =>
+        if e.name == name then { name := name, labels := nx.map Label.num, kind := nk } else e) ∧
+      ∀ k v, (k, v) ∈ ds.vars → ∃ r, (k, r) ∈ out.vars ∧
+        (name ∈ v.dims → interpAxis lin v (.name name) (nx.map Label.num) nk left right = .ok r) ∧
+        (name ∉ v.dims → r = v) := by
+  have hmem := find?_name_some hfind
+  have hvd : ∀ kv ∈ ds.vars, kv.2.dims.Nodup := fun kv hkv => (hg.2.2.2 kv hkv).1
+  have hcl := interpAxisDs_closed lin ds name ax xs nx nk left right hg.1 hg.2.1 hg.2.2.1 hvd hfind
+    (hg.plain hmem.1) hxs hne
+  obtain ⟨hs', hown'⟩ := interp_shared lin ds name nk (sortPos xs) xs nx left right hg.1 hg.2.1 hvd
+  refine ⟨_, hcl, ?_, rfl, hs', hown', rfl, ?_⟩
+  · simp only [Ds.keys, List.map_map]
+    rfl
+  · intro k v hkv
+    refine ⟨interpVar lin name nk (sortPos xs) xs nx left right v, ?_, ?_, ?_⟩
+    · exact List.mem_map_of_mem (f := fun kv => (kv.1, interpVar lin name nk (sortPos xs) xs nx left right kv.2)) hkv
+    · intro hin
+      have hlt : v.dims.idxOf name < v.dims.length := List.idxOf_lt_length_iff.2 hin
+      have hlt' : v.dims.idxOf name < v.axes.length := by simpa [DimArray.dims] using hlt
+      have hax := axes_getD_idxOf v name hin
+      have haxe : v.axes.getD (v.dims.idxOf name) default = ax := hg.axis_eq hfind hkv _ hax.1 hax.2
+      have hax' : v.axes[v.dims.idxOf name]? = some ax := by
+        rw [← haxe, List.getD_eq_getElem?_getD, List.getElem?_eq_getElem hlt']; rfl
+      rw [interpAxis_eq_core, axisPos_name v name hin]
+      show interpCore lin v (v.dims.idxOf name) (nx.map Label.num) nk left right = _
+      rw [interpCore_closed lin v _ ax xs nx nk left right hax' hxs hne, hmem.2]
+      unfold interpVar
+      rw [if_pos hlt]
+    · intro hnot
+      unfold interpVar
+      rw [if_neg (fun hlt => hnot (List.idxOf_lt_length_iff.1 hlt))]
+
+/-- `Dataset.interp_axis` on an unknown dimension: ValueError, as the DimArray method given a name -/
+theorem interpAxisDs_bad_axis {α : Type} [Inhabited α] (lin : α → α → Rat → α) (ds : Ds α) (name : String)
+    (newL : List Label) (nk : Kind) (left right : α) (h : name ∉ ds.dims) :
+    interpAxisDs lin ds name newL nk left right = .error .value := by
+  unfold interpAxisDs
+  rw [find?_name_none h]
+
+/-- hence every variable of the result that has the dimension satisfies the per-fibre specification
+`InterpolatesAlong` (exact at the nodes, fills, chord between neighbours, whatever the stored order) -/
+theorem interpAxisDs_interpolates {α : Type} [Inhabited α] (lin : α → α → Rat → α) (ds out : Ds α) (name : String)
+    (ax : Axis) (xs nx : List Rat) (nk : Kind) (left right : α) (hg : GoodDs ds)
+    (hfind : ds.axes.find? (fun a => a.name == name) = some ax)
+    (hxs : ax.labels = xs.map Label.num) (hne : xs ≠ []) (hnd : xs.Nodup)
+    (h : interpAxisDs lin ds name (nx.map Label.num) nk left right = .ok out)
+    (k : String) (v : DimArray α) (hkv : (k, v) ∈ ds.vars) (hwf : v.WF) (hin : name ∈ v.dims) :
+    ∃ r, (k, r) ∈ out.vars ∧ InterpolatesAlong lin v r (v.dims.idxOf name) ax xs nx nk left right := by
+  obtain ⟨out', hout', -, -, -, -, -, hv⟩ := interpAxisDs_spec lin ds name ax xs nx nk left right hg hfind hxs hne
+  rw [h] at hout'
+  injection hout' with hout'
+  subst hout'
+  obtain ⟨r, hr, hyes, -⟩ := hv k v hkv
+  refine ⟨r, hr, ?_⟩
+  have hlt : v.dims.idxOf name < v.axes.length := by
+    simpa [DimArray.dims] using (List.idxOf_lt_length_iff.2 hin : v.dims.idxOf name < v.dims.length)
+  have hax := axes_getD_idxOf v name hin
+  have haxe : v.axes.getD (v.dims.idxOf name) default = ax := hg.axis_eq hfind hkv _ hax.1 hax.2
+  have hax' : v.axes[v.dims.idxOf name]? = some ax := by
+    rw [← haxe, List.getD_eq_getElem?_getD, List.getElem?_eq_getElem hlt]; rfl
+  obtain ⟨r', hr', hspec⟩ := interpAxis_spec lin v (.name name) _ ax xs nx nk left right hwf
+    (axisPos_name v name hin) hax' hxs hne hnd
+  rw [hyes hin] at hr'
+  injection hr' with hr'
+  rw [hr']
+  exact hspec
+
+/-- non-vacuity on the concrete Dataset of C14 (`x` stored as 10, 30, 20; `a` over (x, y), `b` over (y) only):
+`interp_axis([15, 10, 99], axis="x")` succeeds, `b` comes back as it is, `a` as `a.interp_axis(...)` -/
+example : ∃ out, interpAxisDs (fun a _ _ => a) exDs "x" ([15, 10, 99].map Label.num) .f 0 0 = .ok out ∧
+    out.keys = ["a", "b"] ∧ ("b", exB) ∈ out.vars ∧
+    ∃ r, ("a", r) ∈ out.vars ∧
+      interpAxis (fun a _ _ => a) exA (.name "x") ([15, 10, 99].map Label.num) .f 0 0 = .ok r := by
+  have hfind : exDs.axes.find? (fun a => a.name == "x") = some exX := by simp [exDs, exX]
+  obtain ⟨out, hout, h1, -, -, -, -, h5⟩ :=
+    interpAxisDs_spec (fun a _ _ => a) exDs "x" exX [10, 30, 20] [15, 10, 99] .f 0 0 exDs_good hfind rfl (by simp)
+  refine ⟨out, hout, h1, ?_, ?_⟩
+  · obtain ⟨r, hr, _, hnot⟩ := h5 "b" exB (by simp [exDs])
+    rw [hnot (by simp [exB, DimArray.dims, exY])] at hr
+    exact hr
+  · obtain ⟨r, hr, hin, _⟩ := h5 "a" exA (by simp [exDs])
+    exact ⟨r, hr, hin (by simp [exA, DimArray.dims, exX])⟩
+
+end DSV
 
 end DimModel
